@@ -232,6 +232,7 @@ def execute(plan):
     res.iterations = sim.loop.iteration
     res.sim_time = sim.loop._now
     res.nodes = nodes
+    res.state = {n: node_state(node) for n, node in nodes.items()}
     res.last_fault_arrival = net.last_fault_arrival
     res.timer_log = sim.loop.timer_log
     return res
@@ -244,3 +245,14 @@ ENV_CTX = contextvars.Context()
 
 def _wrap(fn):
     return fn
+
+
+def node_state(node):
+    """discovery, subscription and session state of a node's current incarnation (for twin runs)"""
+    p = node.prot
+    if p is None:
+        return None
+    found = sorted((a, skey(s)) for a, d in p.discovery.found_services.store.items() for s in d)
+    subs = sorted((a, subkey(s)) for inst in p.announcer.announcing_services for a, d in inst.subscriptions.store.items() for s in d)
+    incoming = sorted(p.session_storage.incoming.items())
+    return {"found": found, "subscriptions": subs, "incoming": incoming}
